@@ -34,7 +34,8 @@ LEVEL_TEXT = (
     "(R6.1) the alphabet that quote_header_value leaves unquoted is contained in RFC tchar and in every option parser's "
     "token class and disjoint from all separators, and the bare return is taken only under that test; (R6.2) on every "
     "string up to length 4 over {backslash, quote, letter, ';', ',', space, and every character a rewriting constant "
-    "mentions} the quoted form is an RFC 9110 quoted-string that decodes to the value, and unquote_header_value, the "
+    "mentions - arguments of replace and the entries of a translate table, i.e. a dict or str.maketrans(...) constant "
+    "of the module, a local or an inline one} the quoted form is an RFC 9110 quoted-string that decodes to the value, and unquote_header_value, the "
     "value step of parse_options_header and the item steps of parse_list_header / parse_dict_header give the value back "
     "(no second unescaping after urllib's splitter); (R6.3) the empty value is emitted as a quoted empty string; (R6.4) "
     "Range / Content-Range writers print the exclusive stop minus 1 wherever they print it and the parsers store the "
@@ -103,11 +104,26 @@ def _const_parts(t_: Term) -> list[str]:
     return [cv(p) for p in _parts(t_) if is_cstr(p)]
 
 
-def _replace_consts(terms: t.Iterable[Term]) -> list[tuple[str, str]]:
+def _replace_consts(terms: t.Iterable[Term], conc: Conc | None = None) -> list[tuple[str, str]]:
+    """(old, new) of every constant rewriting the terms apply to a string: ``.replace(old, new)`` and, read off the
+    table, every entry of a ``.translate(table)`` (table = a folded ``str.maketrans(...)`` / dict constant)."""
     out = []
     for x in terms:
         if x[0] == "meth" and x[1] == "replace" and len(x[3]) >= 2 and is_cstr(x[3][0]) and is_cstr(x[3][1]):
             out.append((cv(x[3][0]), cv(x[3][1])))
+        elif x[0] == "meth" and x[1] == "translate" and len(x[3]) == 1 and conc is not None:
+            try:
+                table = H._as_mapping(conc.val(x[3][0], {}))
+            except (H.Unknown, Raised) as ex:
+                raise AnalysisError(f"translation table `{show(x[3][0])[:60]}` is not a constant of the source: {ex}")
+            if not isinstance(table, dict):
+                raise AnalysisError(f"translation table `{show(x[3][0])[:60]}` is a {type(table).__name__}, not a mapping")
+            for k, v in table.items():
+                k_ = chr(k) if isinstance(k, int) else k
+                v_ = "" if v is None else chr(v) if isinstance(v, int) else v
+                if not isinstance(k_, str) or not isinstance(v_, str):
+                    raise AnalysisError(f"translation table entry {k!r}: {v!r} is not understood")
+                out.append((k_, v_))
     return out
 
 
@@ -162,7 +178,7 @@ def _apply(conc: Conc, summ: Summary, args: list[t.Any], kwargs: dict[str, t.Any
 
 def run(ctx: Ctx) -> None:
     repo = ctx.repo
-    folder = Folder(repo)
+    folder = H.TableFolder(repo)
     sums = Summaries(repo, folder)
     conc = Conc(sums)
     for rid, text in {
@@ -230,10 +246,10 @@ def run(ctx: Ctx) -> None:
 
     # R6.2 / R6.3: bounded round trip through the summaries
     alphabet = set(BASE_ALPHABET)
-    for c_ in _replace_consts(Q.terms_deep()):
+    for c_ in _replace_consts(Q.terms_deep(), conc):
         alphabet |= set(c_[0]) | set(c_[1])
     U = S("http.unquote_header_value")
-    for a_, b_ in _replace_consts(U.terms_deep()):
+    for a_, b_ in _replace_consts(U.terms_deep(), conc):
         alphabet |= set(a_) | set(b_)
     smp = H.samples(alphabet, 4 if len(alphabet) <= 7 else 3)
     kw_quote = {flag: False} if flag else {}
@@ -263,7 +279,7 @@ def run(ctx: Ctx) -> None:
     # option parser: the value step of the second loop
     PO = S("http.parse_options_header")
     po_alpha = set(alphabet)
-    for a_, b_ in _replace_consts(PO.terms_deep()):
+    for a_, b_ in _replace_consts(PO.terms_deep(), conc):
         if (a_, b_) != ("%22", '"'):
             po_alpha |= set(a_) | set(b_)
     po_smp = H.samples(po_alpha, 3)
@@ -501,7 +517,7 @@ def run(ctx: Ctx) -> None:
 def run_thorough(ctx: Ctx) -> None:
     """the option-header law of R6.7 on the exhaustive family one character longer than the quick tier's."""
     repo = ctx.repo
-    folder = Folder(repo)
+    folder = H.TableFolder(repo)
     sums = Summaries(repo, folder)
 
     def S(fq: str) -> Summary:
@@ -511,7 +527,7 @@ def run_thorough(ctx: Ctx) -> None:
 
     alphabet = set(BASE_ALPHABET)
     for fq in ("http.quote_header_value", "http.unquote_header_value", "http.parse_options_header"):
-        for a_, b_ in _replace_consts(S(fq).terms_deep()):
+        for a_, b_ in _replace_consts(S(fq).terms_deep(), Conc(sums)):
             if (a_, b_) != ("%22", '"'):
                 alphabet |= set(a_) | set(b_)
     _options_law(ctx, H.Machine(repo, folder), S, alphabet, 4 if len(alphabet) <= 7 else 3, thorough=True)
